@@ -332,6 +332,16 @@ def npUnflattenLL (v : List Int) (limits : List Int) : List (List Int) :=
 def npReshape1 {α : Type} (v : List α) (shape : List Int) : Py (List α) :=
   if shape = [(v.length : Int)] then .ok v else .error .value
 
+/-- `np.diagonal(m)` -/
+def npDiagonal (m : List (List Rat)) : List Rat :=
+  (List.range (min m.length (npShape1 m).toNat)).map (fun i => npEntry m i i)
+
+/-- `m[:, j] = v` : column assignment with an array; `ValueError` unless `v` has one entry per row (or exactly one) -/
+def npSetColVec {α : Type} (m : List (List α)) (j : Int) (v : List α) : Py (List (List α)) :=
+  match v with
+  | [x] => m.mapM (fun r => pySet r j x)
+  | _ => if m.length ≠ v.length then .error .value else (m.zip v).mapM (fun p => pySet p.1 j p.2)
+
 /-- `np.floor(x)` as an integer -/
 def npFloor (x : Rat) : Int := x.floor
 
